@@ -246,8 +246,12 @@ func cfaultCase(cs cfCase) *CaseSpec {
 		}
 		// AwaitConverged under its own deadline and an outer watchdog
 		await := "hang"
-		within(4*time.Second, func() {
-			actx, acancel := context.WithTimeout(context.Background(), 400*time.Millisecond)
+		awaitLimit := 5 * time.Second // generous: the error is there already, the answer is immediate
+		if cs.class == "eof" || !reached {
+			awaitLimit = 300 * time.Millisecond // nothing to wait for: only liveness is judged
+		}
+		within(awaitLimit+4*time.Second, func() {
+			actx, acancel := context.WithTimeout(context.Background(), awaitLimit)
 			defer acancel()
 			err := c.AwaitConverged(actx)
 			var ce *client.ClientErr
